@@ -29,6 +29,11 @@ type SOp struct {
 	Level int    `json:"level,omitempty"` // compact
 	Force bool   `json:"force,omitempty"` // merge
 	M     int    `json:"m,omitempty"`     // dropm
+	// flush: the flush runs while the per-series flush times count as "loading" - the state a shard is in between the
+	// first write after a restart (or after its idle sequencer was freed) and the end of the asynchronous reload.  The
+	// product then writes every row of the flush out of order.  In this sequential world the reload itself runs to
+	// completion at open, so the state is set for the duration of the flush only (Sequencer.SetStat is the product's own setter)
+	Loading bool `json:"loading,omitempty"`
 }
 
 type SCase struct {
@@ -158,6 +163,35 @@ func (worldS) Gen(r *core.Rand, env *core.Env) SCase {
 		c.Ops = append(c.Ops, SOp{K: "w", ID: wid, Rows: []SRow{{M: m, S: 1, T: r.Intn(hi), F: 15}}}, SOp{K: "flush"}, SOp{K: "merge", Force: true})
 		flushes += 2
 	}
+	// Late rows NEWER than every ordered file (a flush that ran while the flush times were loading writes them out of
+	// order), two ordered files of the same series before them, then the merge: seeded change C03-e sent such rows to the
+	// oldest ordered file.  One history in ten of C03 / C02, decided by a generator of its own.
+	if env.Property == "C03" || env.Property == "C02" {
+		if fr := core.NewRand(c.ReadSeed ^ 0x6e657765); fr.Intn(10) == 0 {
+			m := fr.Intn(c.NMst)
+			nf := fr.Range(2, 3)
+			t := 0
+			for f := 0; f < nf; f++ {
+				wid++
+				op := SOp{K: "w", ID: wid}
+				for s := 0; s < c.NSeries && s < 2; s++ {
+					for j, n := 0, fr.Range(1, 3); j < n && t+j < sNumTimes-4; j++ {
+						op.Rows = append(op.Rows, SRow{M: m, S: s, T: t + j, F: 1 + fr.Intn(15)})
+					}
+				}
+				t += 3
+				c.Ops = append(c.Ops, op, SOp{K: "flush"})
+				flushes++
+			}
+			wid++
+			late := SOp{K: "w", ID: wid}
+			for s := 0; s < c.NSeries && s < 2; s++ {
+				late.Rows = append(late.Rows, SRow{M: m, S: s, T: fr.Range(t, sNumTimes-1), F: 1 + fr.Intn(15)})
+			}
+			c.Ops = append(c.Ops, late, SOp{K: "flush", Loading: true}, SOp{K: "merge", Force: fr.Bool(0.7)})
+			flushes++
+		}
+	}
 	if c.ValMode == 2 && r.Bool(map[bool]float64{false: 0.7, true: 0.3}[c.Crash]) {
 		// every column of one measurement filled over all time slots (one row in eight lacks a field), then flushed:
 		// each column pattern of the case meets blocks of every length the segment size allows, with and without nulls
@@ -252,6 +286,17 @@ func (worldS) Gen(r *core.Rand, env *core.Env) SCase {
 	}
 	if c.ValMode == 0 {
 		c.NegMode = core.Pick(r, []int{0, 0, 1, 2, 3}) // drawn last: everything else is what the seed produced before
+	}
+	if env.Property == "C02" || env.Property == "C03" {
+		// one history in four: some of its flushes run in the "flush times loading" state (seeded change C03-e needed
+		// out-of-order rows newer than every ordered file); decided by a generator of its own
+		if fr := core.NewRand(c.ReadSeed ^ 0x6c6f6164); fr.Intn(4) == 0 {
+			for i := range c.Ops {
+				if c.Ops[i].K == "flush" && fr.Intn(2) == 0 {
+					c.Ops[i].Loading = true
+				}
+			}
+		}
 	}
 	return c
 }
@@ -672,7 +717,16 @@ func (run *sRun) step(i int, op SOp) *core.Violation {
 			}
 		}
 	case "flush":
-		sh.ForceFlush()
+		if op.Loading {
+			seq := sh.immTables.Sequencer()
+			seq.SetStat(false, true)
+			sh.ForceFlush()
+			seq.SetStat(false, false)
+			seq.UnRef()
+			out.Probes["flush while the flush times were loading"]++
+		} else {
+			sh.ForceFlush()
+		}
 		run.flushGen++
 		out.Log("op%d flush", i)
 		out.Stats["flushes"]++
